@@ -173,6 +173,7 @@ func parallelMerge(reqCloner func(*Request) *Request, timeout time.Duration, rc 
 			case response := <-parts:
 				acc.Merge(response, nil)
 			}
+			verifDequeued("merge")
 		}
 
 		result, err := acc.Result()
